@@ -25,7 +25,9 @@ def files_idempotence(ctx, replay=None):
     rng = random.Random(ctx.seed * 13 + 1)
     kinds = {"json": (JsonFileStore, lambda v: ["x", v]), "pickle": (PickleFileStore, lambda v: ("x", v)),
              "text": (TextFileStore, lambda v: "x%s" % (v,)), "binary": (BinaryFileStore, lambda v: b"x" + repr(v).encode()),
-             "touch": (TouchFileStore, lambda v: None)}
+             "touch": (TouchFileStore, lambda v: None),
+             # EMPTY values are values: a zero-length file is a stored value like any other
+             "text-empty": (TextFileStore, lambda v: ""), "binary-empty": (BinaryFileStore, lambda v: b"")}
     cases = [replay["files_case"]] if replay else [(k, how, w) for k in kinds for how in ("touch-source", "fresh-time")
                                                    for w in (rng.choice([1, 3]),)]
     viol, done = [], 0
@@ -164,6 +166,65 @@ def path_source_cases(ctx, replay=None):
                              "replay_fn": "path_source", "path_case": kind0})
                 break
     return {"violations": viol, "disagreements": [], "coverage": {"path_source_cases": done}}
+
+
+def dir_source_cases(ctx, replay=None):
+    """A PathSource on a DIRECTORY: a file removed from it, or copied into it with its old modified time (`shutil.copy2`), changes
+    the directory - what is stored downstream of the source is out of date and is rebuilt, once."""
+    import os
+    import shutil
+    import tempfile
+    import time
+
+    import uberjob
+    from uberjob.stores import JsonFileStore, PathSource
+    viol, done = [], 0
+    for kind in ([replay["dir_case"]] if replay else ["delete", "copy2", "rename"]):
+        with tempfile.TemporaryDirectory() as d:
+            src_dir, other = os.path.join(d, "input"), os.path.join(d, "elsewhere")
+            os.makedirs(src_dir)
+            os.makedirs(other)
+            for name in ("a.txt", "b.txt"):
+                with open(os.path.join(src_dir, name), "w") as fh:
+                    fh.write(name)
+            with open(os.path.join(other, "c.txt"), "w") as fh:
+                fh.write("c")
+            old = time.time() - 86400
+            os.utime(os.path.join(other, "c.txt"), (old, old))
+            calls = []
+
+            def run():
+                del calls[:]
+                plan, reg = uberjob.Plan(), uberjob.Registry()
+                src = reg.source(plan, PathSource(src_dir))
+
+                def listing(path):
+                    calls.append("list")
+                    return sorted(os.listdir(path))
+                a = plan.call(listing, src)
+                reg.add(a, JsonFileStore(os.path.join(d, "a.json")))
+                return uberjob.run(plan, registry=reg, output=a, progress=None), list(calls)
+            time.sleep(0.02)
+            r1 = run()
+            time.sleep(0.02)
+            if kind == "delete":
+                os.remove(os.path.join(src_dir, "b.txt"))
+                want = ["a.txt"]
+            elif kind == "copy2":
+                shutil.copy2(os.path.join(other, "c.txt"), os.path.join(src_dir, "c.txt"))
+                want = ["a.txt", "b.txt", "c.txt"]
+            else:
+                os.rename(os.path.join(src_dir, "b.txt"), os.path.join(src_dir, "z.txt"))
+                want = ["a.txt", "z.txt"]
+            time.sleep(0.02)
+            r2 = run()
+            r3 = run()
+            done += 1
+            if r1 != (["a.txt", "b.txt"], ["list"]) or r2 != (want, ["list"]) or r3 != (want, []):
+                viol.append({"property": "C05", "what": f"PathSource on a directory, {kind} of a file in it between runs: run / change / run / run gave "
+                             f"{[r1, r2, r3]}, expected the listing {want} after one rebuild", "replay_fn": "dir_source", "dir_case": kind})
+                break
+    return {"violations": viol, "disagreements": [], "coverage": {"dir_source_cases": done}}
 
 
 def special_source_cases(ctx, replay=None):
@@ -306,6 +367,10 @@ def explore(ctx):
             res["violations"] += f["violations"]
             res["coverage"].update(f["coverage"])
         if not res["violations"]:
+            f = dir_source_cases(ctx)
+            res["violations"] += f["violations"]
+            res["coverage"].update(f["coverage"])
+        if not res["violations"]:
             f = zoned_source_cases(ctx)
             res["violations"] += f["violations"]
             res["coverage"].update(f["coverage"])
@@ -333,6 +398,9 @@ def replay(ctx, payload):
     w = payload.get("witness", payload)
     if w.get("replay_fn") == "special_source":
         r = special_source_cases(ctx, replay=w)
+        return r["violations"][0]["what"] if r["violations"] else None
+    if w.get("replay_fn") == "dir_source":
+        r = dir_source_cases(ctx, replay=w)
         return r["violations"][0]["what"] if r["violations"] else None
     if w.get("replay_fn") == "zoned_source":
         r = zoned_source_cases(ctx, replay=w)
